@@ -35,20 +35,33 @@ ACCESSOR = re.compile(r'^\s*(?:::)?(?:\w+\s*::\s*)*Dzn\s*::\s*(Sts|Mts)\s*<[^>]+
 
 
 def toy_model(prov, req, injected, raw=False):
-    """A component with the given provides/requires port names (one shared interface, which is
-    also fit for a multi-client configuration: Claim replies an enum, Do is a void in-event)."""
+    """A component with the given provides/requires port names.  Ports named a, x, j and zz use
+    interface I (fit for a multi-client configuration: Claim replies an enum, Do is a void in-event,
+    Done is an out-event); a port named b uses IOut (out-events only: nothing inbound on a provides
+    port), a port named c uses IIn (in-events only: nothing inbound on a requires port).  The
+    semantics a port gets - and the accessor type that shows it - does not depend on the shape of
+    its interface."""
     itf = {'k': 'interface', 'name': ['I'], 'types': [{'k': 'enum', 'name': ['R'], 'fields': ['Ok', 'No']}],
            'events': [
         {'name': 'Claim', 'dir': 'in', 'ret': ['R'], 'formals': []},
         {'name': 'Do', 'dir': 'in', 'ret': ['void'], 'formals': []},
         {'name': 'Done', 'dir': 'out', 'ret': ['void'], 'formals': []}]}
+    iout = {'k': 'interface', 'name': ['IOut'], 'types': [], 'events': [
+        {'name': 'Done', 'dir': 'out', 'ret': ['void'], 'formals': []},
+        {'name': 'Gone', 'dir': 'out', 'ret': ['void'], 'formals': []}]}
+    iin = {'k': 'interface', 'name': ['IIn'], 'types': [], 'events': [
+        {'name': 'Do', 'dir': 'in', 'ret': ['void'], 'formals': []},
+        {'name': 'Ask', 'dir': 'in', 'ret': ['bool'], 'formals': []}]}
+    shape = {'b': ['IOut'], 'c': ['IIn']}
     pp, rp = ('', '') if raw else ('p', 'r')
-    ports = [{'name': pp + n, 'type': ['I'], 'dir': 'provides', 'injected': False} for n in prov]
-    ports += [{'name': rp + n, 'type': ['I'], 'dir': 'requires', 'injected': False} for n in req]
-    ports += [{'name': rp + n, 'type': ['I'], 'dir': 'requires', 'injected': True}
+    ports = [{'name': pp + n, 'type': shape.get(n, ['I']), 'dir': 'provides', 'injected': False}
+             for n in prov]
+    ports += [{'name': rp + n, 'type': shape.get(n, ['I']), 'dir': 'requires', 'injected': False}
+              for n in req]
+    ports += [{'name': rp + n, 'type': shape.get(n, ['I']), 'dir': 'requires', 'injected': True}
               for n in injected]
     comp = {'k': 'component', 'name': ['Comp'], 'ports': ports}
-    return {'root': [itf, {'k': 'ns', 'ids': ['My'], 'elems': [comp]}], 'wd': '/w'}
+    return {'root': [itf, iout, iin, {'k': 'ns', 'ids': ['My'], 'elems': [comp]}], 'wd': '/w'}
 
 
 _FC = {}
